@@ -1476,7 +1476,12 @@ func (c ipamClient) assignFromExistingBlock(ctx context.Context, config *IPAMCon
 			logCtx.Debug("Decrementing handle since we failed to allocate IP(s)")
 			// Extend timeout for the cleanup, if needed.
 			cleanupCtx, cancel := contextForCleanup(ctx)
-			if err := c.decrementHandle(cleanupCtx, *handleID, blockCIDR, num, nil); err != nil {
+			if c.blockWriteMayHaveLanded(cleanupCtx, err, blockCIDR, ips, *handleID) {
+				// The write was (or may have been) applied although we saw an error, e.g. a timeout
+				// after the datastore committed it. Keep the handle's reference to this block so that
+				// ReleaseByHandle still finds, and frees, the address.
+				logCtx.Warn("Block update failed but may have been applied; not decrementing handle")
+			} else if err := c.decrementHandle(cleanupCtx, *handleID, blockCIDR, num, nil); err != nil {
 				logCtx.WithError(err).Warnf("Failed to decrement handle")
 			}
 			cancel()
@@ -1485,6 +1490,32 @@ func (c ipamClient) assignFromExistingBlock(ctx context.Context, config *IPAMCon
 	}
 	logCtx.Infof("Successfully claimed IPs: %v", ips)
 	return ips, nil
+}
+
+// blockWriteMayHaveLanded reports whether, after an update of the given block failed with updateErr,
+// the block in the datastore may nevertheless hold one of ips under handleID. A compare-and-swap
+// conflict is a definite "not applied"; for any other error the block is read back.
+func (c ipamClient) blockWriteMayHaveLanded(ctx context.Context, updateErr error, blockCIDR net.IPNet, ips []net.IPNet, handleID string) bool {
+	if _, ok := updateErr.(cerrors.ErrorResourceUpdateConflict); ok {
+		return false
+	}
+	obj, err := c.blockReaderWriter.queryBlock(ctx, blockCIDR, "")
+	if err != nil {
+		if _, ok := err.(cerrors.ErrorResourceDoesNotExist); ok {
+			return false
+		}
+		// Cannot tell: err on the side of not orphaning an allocation.
+		return true
+	}
+	b := allocationBlock{obj.Value.(*model.AllocationBlock)}
+	for _, held := range b.ipsByHandle(handleID) {
+		for _, ip := range ips {
+			if held.Equal(ip.IP) {
+				return true
+			}
+		}
+	}
+	return false
 }
 
 // contextForCleanup returns a derived context with at least 30s remaining before the deadline.
